@@ -241,6 +241,7 @@ def run_case(case, verbose=False, hooks=None):
     H.verdict_detail = w.verdict_detail
     H.case = case
     H.steps = w.steps
+    H.decisions = w.decision_no
     H.ops = w.sync["ops"]
     H.max_occ = w.sync["max_occ"]
     H.all_done = bool(w.sync.get("all_done"))
